@@ -415,8 +415,12 @@ def eventlist_search(rounds=3000, seed=0):
 
         def key(e):
             return (e.time, -e.priority, e.id)
-        for step in range(rng.randrange(2, 14)):
-            op = rng.choice(["add", "add", "add", "remove", "pop", "peek", "contains", "clear1"])
+        nsteps = rng.randrange(2, 14) if r % 3 else rng.randrange(12, 40)
+        for step in range(nsteps):
+            if r % 3 == 0 and step < nsteps // 2:
+                op = rng.choice(["add", "add", "add", "add", "remove"])
+            else:
+                op = rng.choice(["add", "add", "add", "remove", "remove", "pop", "peek", "contains", "clear1"])
             if op == "add":
                 t = rng.randrange(0, 6) if timekind == "int" else float(rng.randrange(0, 6)) / 2
                 e = SimEvent(t, tgt, "m", rng.choice([1, 5, 5, 10]))
@@ -632,6 +636,26 @@ def parameters_search(rounds=1500, seed=0):
                 return {"model_key": key, "value": repr(v), "failure": "get_parameter returned %r" % (got,)}
             if m.input_parameters.get(q.extended_key()[len("root."):]) is not q:
                 return {"failure": "parameter not retrievable by its extended key %s" % q.extended_key()}
+        # a three-level tree: every parameter retrievable and removable by its dotted key, also when the same
+        # leaf key occurs on two levels
+        root = InputParameterMap("root", "root", 1.0)
+        a = InputParameterMap("a", "a", 1.0, parent=root)
+        b = InputParameterMap("b", "b", 1.0, parent=a)
+        leaf_b, _ = mk("int", "x", False, parent=b)
+        leaf_a, _ = mk("int", "x", False, parent=a)
+        leaf_b2, _ = mk("str", "y", False, parent=b)
+        for path, obj in (("a.b.x", leaf_b), ("a.x", leaf_a), ("a.b.y", leaf_b2), ("a.b", b)):
+            try:
+                if root.get(path) is not obj:
+                    return {"tree": "root{a{b{x,y},x}}", "failure": "get(%r) returned another parameter" % path}
+            except Exception as e:
+                return {"tree": "root{a{b{x,y},x}}", "failure": "get(%r) raised %s: %s" % (path, type(e).__name__, e)}
+        try:
+            got = root.remove("a.b.x")
+        except Exception as e:
+            return {"tree": "root{a{b{x,y},x}}", "failure": "remove('a.b.x') raised %s: %s" % (type(e).__name__, e)}
+        if got is not leaf_b or "x" in b.value or "x" not in a.value:
+            return {"tree": "root{a{b{x,y},x}}", "failure": "remove('a.b.x') removed/returned the wrong parameter"}
     return None
 
 
@@ -750,7 +774,7 @@ def dist_search(cls_name, want_exc=None):
     return None
 
 
-@replayer(r"Dist\w+\.(draw|_next_gaussian|_set_stream|__init__)")
+@replayer(r"(Dist\w+|Distribution)\.(draw|_next_gaussian|_set_stream|__init__|stream@setter)")
 def replay_dist(rec):
     cls_name = rec["function"].split(".")[0]
     want = exc_class_of(rec) if rec.get("obligation", "").startswith("noexc") else None
@@ -761,4 +785,402 @@ def replay_dist(rec):
         f = dist_search(n, want)
         if f:
             return {"reproduced": True, "input": f, "observed": f["failure"]}
+    if want is None:
+        f = dist_purity_search()
+        if f:
+            return {"reproduced": True, "input": f, "observed": f["failure"]}
     return {"reproduced": False, "note": "no failing (parameters, uniforms) found on the extreme-uniform grid"}
+
+
+def dist_purity_search():
+    """Equal parameters on equally seeded streams give identical draws -- also after the distribution was pointed at a
+    stream again (the same object after reseeding, or another object), after odd/even numbers of earlier draws."""
+    import pydsol.core.distributions as D
+    from pydsol.core.streams import MersenneTwister
+    for cls_name, grid in DIST_GRID.items():
+        cls = getattr(D, cls_name)
+        for params in grid[:2]:
+            for warm in (0, 1, 2, 3):
+                for mode in ("same-object-reseeded", "new-object"):
+                    try:
+                        s1 = MersenneTwister(7)
+                        d = cls(s1, *params)
+                        for _ in range(warm):
+                            d.draw()
+                        if mode == "same-object-reseeded":
+                            s1.set_seed(42)
+                            d.stream = s1
+                        else:
+                            d.stream = MersenneTwister(42)
+                        got = [d.draw() for _ in range(4)]
+                        ref = cls(MersenneTwister(42), *params)
+                        exp = [ref.draw() for _ in range(4)]
+                    except (ValueError, ZeroDivisionError):
+                        continue
+                    if got != exp:
+                        return {"class": cls_name, "parameters": params, "draws_before_repointing": warm, "mode": mode,
+                                "failure": "draws after re-pointing %s differ from a fresh instance on an equally seeded stream %s" % (got[:2], exp[:2])}
+    return None
+
+
+# ------------------------------------------------------------------ C10 weighted / time-weighted tallies
+def weighted_search(rounds=1500, seed=0):
+    from fractions import Fraction as F
+    from pydsol.core.statistics import WeightedTally, TimestampWeightedTally
+    rng = random.Random(seed)
+
+    def ref_weighted(obs):
+        pos = [(F(w), F(x)) for w, x in obs if w > 0]
+        W = sum((w for w, _ in pos), F(0))
+        A = sum((w * x for w, x in pos), F(0))
+        r = {"n": len(obs), "min": min((F(x) for _, x in obs), default=None), "max": max((F(x) for _, x in obs), default=None),
+             "wsum": A}
+        if W > 0:
+            mu = A / W
+            var = sum((w * (x - mu) ** 2 for w, x in pos), F(0)) / W
+            r.update(mean=mu, var_b=var, var_u=(var * len(pos) / (len(pos) - 1) if len(pos) > 1 else None))
+        else:
+            r.update(mean="any", var_b="nan-or-value", var_u="nan-or-value")
+        return r
+
+    def cmp(t, ref, what):
+        got = {"n": t.n(), "min": t.min(), "max": t.max(), "wsum": t.weighted_sum(), "mean": t.weighted_mean(),
+               "var_b": t.weighted_variance(), "var_u": t.weighted_variance(False), "sd_b": t.weighted_stdev()}
+        for k in ("n", "min", "max", "wsum", "mean", "var_b", "var_u"):
+            e = ref[k]
+            if isinstance(e, str):
+                continue
+            if k == "n":
+                if got[k] != e:
+                    return "%s: n() = %r, expected %r" % (what, got[k], e)
+            elif not close(got[k], e, 1e-7):
+                return "%s: %s = %r, exact reference %r" % (what, k, got[k], None if e is None else float(e))
+        return None
+    for r in range(rounds):
+        # plain weighted tally
+        obs = []
+        t = WeightedTally("replay")
+        for _ in range(rng.randrange(0, 7)):
+            w = rng.choice([0, 0, 1, 2, 0.5, 3.25])
+            x = rng.choice([0, 1, 2.5, -1, 4, 4])
+            try:
+                t.register(w, x)
+            except Exception as e:
+                return {"observations": obs + [(w, x)], "failure": "register raised %s: %s" % (type(e).__name__, e)}
+            obs.append((w, x))
+            try:
+                m = cmp(t, ref_weighted(obs), "after %d weighted observations" % len(obs))
+            except Exception as e:
+                return {"observations": obs, "failure": "query raised %s: %s" % (type(e).__name__, e)}
+            if m:
+                return {"observations": obs, "failure": m}
+        # timestamped variant
+        ts = TimestampWeightedTally("replay")
+        hist, sig, active, tcur = [], [], True, None
+        for _ in range(rng.randrange(1, 8)):
+            op = rng.choice(["reg", "reg", "reg", "same", "end", "init", "back"])
+            try:
+                if op == "init" and rng.random() < 0.3:
+                    ts.initialize()
+                    hist.append(("initialize",))
+                    sig, active, tcur = [], True, None
+                elif op == "end" and tcur is not None and rng.random() < 0.5:
+                    T = tcur + rng.choice([0, 1, 2.5])
+                    ts.end_observations(T)
+                    hist.append(("end_observations", T))
+                    if active:
+                        sig.append((T, sig[-1][1] if sig else 0.0))
+                        tcur = T
+                    active = False
+                elif op == "back" and tcur is not None:
+                    try:
+                        ts.register(tcur - 1, 9.0)
+                        return {"history": hist + [("register", tcur - 1, 9.0)], "failure": "an earlier timestamp was accepted"}
+                    except ValueError:
+                        hist.append(("register-earlier-refused", tcur - 1))
+                else:
+                    tnew = (tcur if tcur is not None else rng.choice([0, 1.0])) + (0 if op == "same" else rng.choice([0, 1, 0.5, 2]))
+                    v = rng.choice([0, 1, 2, 5, -1.5])
+                    ts.register(tnew, v)
+                    hist.append(("register", tnew, v))
+                    if active:
+                        sig.append((tnew, v))
+                        tcur = tnew
+            except Exception as e:
+                return {"history": hist, "failure": "%s raised %s: %s" % (op, type(e).__name__, e)}
+            # reference: weighted observations (dt, previous value) for strictly later timestamps
+            wobs = []
+            last_t, last_v = None, None
+            for (tt, vv) in sig:
+                if last_t is None:
+                    last_t, last_v = tt, vv
+                    continue
+                if tt > last_t:
+                    wobs.append((tt - last_t, last_v))
+                    last_t = tt
+                last_v = vv
+            try:
+                m = cmp(ts, ref_weighted(wobs), "timestamped history")
+            except Exception as e:
+                return {"history": hist, "failure": "query raised %s: %s" % (type(e).__name__, e)}
+            if m:
+                return {"history": hist, "failure": m}
+    return None
+
+
+@replayer(r"(WeightedTally|TimestampWeightedTally|EventBasedWeightedTally|EventBasedTimestampWeightedTally)\..*")
+def replay_weighted(rec):
+    for seed in range(2):
+        f = weighted_search(seed=seed)
+        if f:
+            return {"reproduced": True, "input": f, "observed": f["failure"]}
+    return {"reproduced": False, "note": "no failing weighted / timestamped history found (3000 random histories)"}
+
+
+# ------------------------------------------------------------------ C12 streams
+@replayer(r"MersenneTwister\..*")
+def replay_streams(rec):
+    from pydsol.core.streams import MersenneTwister
+    rng = random.Random(4)
+    ranges = [(0, 9), (5, 5), (-7, -3), (-(2 ** 70), 2 ** 70), (2 ** 53 + 1, 2 ** 53 + 1), (10 ** 17 + 1, 10 ** 17 + 10),
+              (2 ** 62 + 3, 2 ** 62 + 5), (-(2 ** 63), -(2 ** 63) + 2), (0, 2 ** 64)]
+    for seed in (0, 1, -5, 2 ** 40, 123456789):
+        a, b = MersenneTwister(seed), MersenneTwister(seed)
+        other = MersenneTwister(99)
+        saved = None
+        after_save = []
+        for step in range(120):
+            op = rng.choice(["f", "i", "b", "save", "other"])
+            if op == "other":
+                other.next_float()
+                other.next_int(0, 5)
+                continue
+            if op == "save" and saved is None:
+                saved = a.save_state()
+                b.save_state()
+                continue
+            if op == "f":
+                x, y = a.next_float(), b.next_float()
+                ok = 0.0 <= x < 1.0
+            elif op == "b":
+                x, y = a.next_bool(), b.next_bool()
+                ok = True
+            else:
+                lo, hi = rng.choice(ranges)
+                x, y = a.next_int(lo, hi), b.next_int(lo, hi)
+                ok = lo <= x <= hi
+                op = ("i", lo, hi)
+            if saved is not None:
+                after_save.append((op, x))
+            if x != y:
+                return {"reproduced": True, "input": {"seed": seed, "step": step, "op": op}, "observed": "twin streams differ: %r vs %r" % (x, y)}
+            if not ok:
+                return {"reproduced": True, "input": {"seed": seed, "op": op}, "observed": "draw %r outside the requested range" % (x,)}
+        if saved is not None:
+            a.restore_state(saved)
+            for op, x in after_save:
+                y = a.next_float() if op == "f" else a.next_bool() if op == "b" else a.next_int(op[1], op[2])
+                if y != x:
+                    return {"reproduced": True, "input": {"seed": seed, "op": op}, "observed": "after restore_state the sequence differs: %r vs %r" % (y, x)}
+        c = MersenneTwister(seed)
+        first = [c.next_float() for _ in range(5)]
+        c.reset()
+        if [c.next_float() for _ in range(5)] != first:
+            return {"reproduced": True, "input": {"seed": seed}, "observed": "reset does not replay the sequence"}
+    return {"reproduced": False, "note": "twin / reset / restore / range checks passed for 5 seeds x 120 interleaved draws incl. huge ranges"}
+
+
+# ------------------------------------------------------------------ C02 / C03 / C04 / C05 simulator
+def _wait_quiescent(sim, limit=5.0):
+    import time as _t
+    t0 = _t.time()
+    while sim.is_starting_or_running() and _t.time() - t0 < limit:
+        _t.sleep(0.002)
+    _t.sleep(0.01)
+
+
+def simulator_search(rounds=60, seed=0):
+    """Generated model programs (handlers that schedule children now / after a delay / at an absolute time with
+    priorities, cancel pending events, tie on times, fail) run on the real DEVSSimulatorFloat -- in one piece and cut
+    into run_up_to / run_up_to_including / step / stop-start segments, under the non-terminating error strategies --
+    against a reference DEVS semantics (sorted by time, then higher priority, then scheduling order)."""
+    import heapq
+    import io
+    import contextlib
+    from pydsol.core.simulator import DEVSSimulatorFloat, ErrorStrategy, RunState, ReplicationState
+    from pydsol.core.model import DSOLModel
+    from pydsol.core.experiment import SingleReplication
+    from pydsol.core.utils import DSOLError
+    rng = random.Random(seed)
+    END = 10.0
+
+    def gen_program():
+        # tag -> list of actions
+        prog = {}
+        n = rng.randrange(4, 11)
+        for tag in range(n):
+            acts = []
+            for _ in range(rng.randrange(0, 3)):
+                k = rng.random()
+                if tag + 1 >= n:
+                    break
+                child = rng.randrange(tag + 1, n)      # children have larger tags: every program terminates
+                if k < 0.45:
+                    acts.append(("rel", rng.choice([0.0, 0.5, 1.0, 1.0, 2.5]), rng.choice([1, 5, 5, 10]), child))
+                elif k < 0.6:
+                    acts.append(("now", rng.choice([1, 5, 10]), child))
+                elif k < 0.75:
+                    acts.append(("abs", rng.choice([2.0, 5.0, 7.5, 10.0, 12.0]), rng.choice([1, 5, 10]), child))
+                elif k < 0.9:
+                    acts.append(("cancel", rng.randrange(12)))
+                else:
+                    acts.append(("bad", rng.choice([-1.0, float("nan")])))
+            prog[tag] = acts
+        ninit = rng.randrange(2, 6) if rng.random() < 0.6 else rng.randrange(7, 14)
+        init = [(rng.choice([0.0, 1.0, 1.0, 2.0, 3.5, 4.0, 5.5, 6.0, 7.0, 8.5, 9.0, 10.0]), rng.choice([1, 5, 5, 10]), rng.randrange(n)) for _ in range(ninit)]
+        fails = {t for t in range(n) if rng.random() < 0.15}
+        return prog, init, fails
+
+    def reference(prog, init, fails, bound=END, strategy=ErrorStrategy.WARN_AND_CONTINUE):
+        heap, seq, trace, handles, clock = [], [0], [], [], 0.0
+        def sched(t, p, tag):
+            seq[0] += 1
+            e = [t, -p, seq[0], tag, True]
+            heapq.heappush(heap, e)
+            handles.append(e)
+        for (t, p, tag) in init:
+            sched(t, p, tag)
+        while heap:
+            e = heapq.heappop(heap)
+            if not e[4]:
+                continue
+            if e[0] > bound:
+                heapq.heappush(heap, e)
+                break
+            e[4] = False
+            clock = e[0]
+            trace.append((clock, e[3]))
+            for a in prog[e[3]]:
+                if a[0] == "rel":
+                    sched(clock + a[1], a[2], a[3])
+                elif a[0] == "now":
+                    sched(clock, a[1], a[2])
+                elif a[0] == "abs":
+                    if a[1] >= clock:
+                        sched(a[1], a[2], a[3])
+                elif a[0] == "cancel":
+                    if a[1] < len(handles):
+                        handles[a[1]][4] = False
+            # a failing handler fails AFTER its actions
+        return trace
+
+    for r in range(rounds):
+        prog, init, fails = gen_program()
+        exp = reference(prog, init, fails)
+        for mode in ("start", "segments", "steps"):
+            strategy = rng.choice([ErrorStrategy.LOG_AND_CONTINUE, ErrorStrategy.WARN_AND_CONTINUE])
+            trace, handles, refused = [], [], []
+
+            class M(DSOLModel):
+                def construct_model(self):
+                    for (t, p, tag) in init:
+                        handles.append(self.simulator.schedule_event_abs(t, self, "h", p, tag=tag))
+
+                def h(self, tag):
+                    sim = self.simulator
+                    trace.append((sim.simulator_time, tag))
+                    for a in prog[tag]:
+                        if a[0] == "rel":
+                            handles.append(sim.schedule_event_rel(a[1], self, "h", a[2], tag=a[3]))
+                        elif a[0] == "now":
+                            handles.append(sim.schedule_event_now(self, "h", a[1], tag=a[2]))
+                        elif a[0] == "abs":
+                            try:
+                                handles.append(sim.schedule_event_abs(a[1], self, "h", a[2], tag=a[3]))
+                            except DSOLError:
+                                pass
+                        elif a[0] == "cancel":
+                            if a[1] < len(handles):
+                                sim.cancel_event(handles[a[1]])
+                        elif a[0] == "bad":
+                            before = sim.eventlist().size()
+                            try:
+                                sim.schedule_event_rel(a[1], self, "h", 5, tag=0)
+                                refused.append("illegal delay %r accepted" % (a[1],))
+                            except DSOLError:
+                                if sim.eventlist().size() != before:
+                                    refused.append("refused scheduling changed the pending events")
+                            except Exception as e:
+                                refused.append("illegal delay %r raised %s instead of DSOLError" % (a[1], type(e).__name__))
+                    if tag in fails:
+                        if tag % 2:
+                            raise SystemExit(3)        # a handler calling sys.exit(): still a handler failure
+                        raise RuntimeError("injected handler failure")
+            sim = DEVSSimulatorFloat("replay")
+            sim.set_error_strategy(strategy, 100)
+            m = M(sim)
+            cuts = []
+            out = io.StringIO()
+            try:
+                with contextlib.redirect_stdout(out), contextlib.redirect_stderr(out):
+                    sim.initialize(m, SingleReplication("r", 0.0, 0.0, END))
+                    if mode == "start":
+                        sim.start()
+                        _wait_quiescent(sim)
+                    elif mode == "segments":
+                        pts = sorted(rng.sample([0.5, 1.0, 2.0, 3.5, 5.0, 7.5, 9.0], rng.randrange(1, 4)))
+                        for c in pts:
+                            if c <= sim.simulator_time:
+                                continue
+                            incl = rng.random() < 0.5
+                            cuts.append((c, incl))
+                            (sim.run_up_to_including if incl else sim.run_up_to)(c)
+                            _wait_quiescent(sim)
+                            if sim.replication_state not in (ReplicationState.STARTED,):
+                                return {"program": prog, "initial": init, "cuts": cuts, "failure": "bounded run to %r left replication state %s (not resumable)" % (c, sim.replication_state)}
+                            if sim.simulator_time != c:
+                                return {"program": prog, "initial": init, "cuts": cuts, "failure": "clock %r after bounded run to %r" % (sim.simulator_time, c)}
+                        sim.start()
+                        _wait_quiescent(sim)
+                    else:
+                        for _ in range(200):
+                            try:
+                                sim.step()
+                            except DSOLError:
+                                break
+                            cuts.append("step")
+                            if sim.run_state != RunState.STOPPED:
+                                return {"program": prog, "initial": init, "failure": "run state %s after step()" % sim.run_state}
+            except Exception as e:
+                return {"program": prog, "initial": init, "failing_tags": sorted(fails), "mode": mode, "cuts": cuts,
+                        "failure": "%s escaped: %s" % (type(e).__name__, e)}
+            finally:
+                try:
+                    with contextlib.redirect_stdout(out):
+                        sim.cleanup()
+                except Exception:
+                    pass
+            if refused:
+                return {"program": prog, "initial": init, "failure": refused[0]}
+            want = exp if mode != "steps" else exp
+            if mode == "steps":
+                # stepping stops when the clock reaches the end; events AT the end are still within it
+                if trace != exp[:len(trace)] or any(t > END for t, _ in trace):
+                    return {"program": prog, "initial": init, "failing_tags": sorted(fails), "mode": mode,
+                            "failure": "stepped trace %s is not a prefix of the reference %s" % (trace[:12], exp[:12])}
+            elif trace != want:
+                return {"program": prog, "initial": init, "failing_tags": sorted(fails), "mode": mode, "cuts": cuts,
+                        "strategy": strategy, "failure": "executed trace %s differs from the reference semantics %s" % (trace[:14], want[:14])}
+            for i in range(1, len(trace)):
+                if trace[i][0] < trace[i - 1][0]:
+                    return {"program": prog, "initial": init, "failure": "clock moved backwards in the trace %s" % (trace,)}
+    return None
+
+
+@replayer(r"(DEVSSimulator|Simulator|SimEvent)\..*")
+def replay_simulator(rec):
+    for seed in range(2):
+        f = simulator_search(seed=seed)
+        if f:
+            return {"reproduced": True, "input": f, "observed": f["failure"]}
+    return {"reproduced": False, "note": "no failing model program / segmentation found (120 generated programs x 3 run modes)"}
